@@ -23,7 +23,7 @@ from hypothesis.stateful import RuleBasedStateMachine, rule, precondition, run_s
 from mpgameserver import SeqNum, ServerMessageDispatcher, ClientMessageDispatcher, server_event, client_event
 from mpgameserver.dispatch import DispatchError
 
-from vp.props.c20_postponed import (ResourceBase, VpC20MsgA, VpC20MsgB, VpC20MsgC, VpC20MsgD, VpC20MsgA1,
+from vp.props.c20_postponed import (RAISES, raise_for, ResourceBase, VpC20MsgA, VpC20MsgB, VpC20MsgC, VpC20MsgD, VpC20MsgA1,
                                     VpC20MsgU, SERVER_STR, CLIENT_STR)
 
 ID = "C20"
@@ -239,9 +239,11 @@ class World(object):
         if self.server:
             def fn(client, seqnum, msg):
                 sink.append((name, "fn", (client, seqnum, msg)))
+                raise_for(msg)
         else:
             def fn(seqnum, msg):
                 sink.append((name, "fn", (seqnum, msg)))
+                raise_for(msg)
         return fn
 
     # -- helpers --------------------------------------------------------------
@@ -444,8 +446,12 @@ class World(object):
             if h is None:
                 if isinstance(exc, DispatchError) and not calls:
                     matches.add(None)
-            elif exc is None and len(calls) == 1 and calls[0][:2] == h and same_args(calls[0][2]):
+            elif (exc is None or (v in RAISES and not isinstance(exc, DispatchError))) and len(calls) == 1 and calls[0][:2] == h and same_args(calls[0][2]):
+                # (a handler that fails: whatever the dispatcher does with the handler's own exception, it must not turn it
+                # into "no handler registered")
                 matches.add(h)
+                if v in RAISES:
+                    self.flags.add("dispatch-to-a-raising-handler")
         if matches:
             self.possible[c] = matches
             self.flags.add("dispatch-unrouted" if None in matches else "dispatch-routed")
@@ -502,7 +508,7 @@ def make_machine(ctx, kind):
     anns = st.sampled_from(["cls", "str"])
     ress = st.integers(0, NRES - 1)
     classes = st.sampled_from(CNAMES)
-    vals = st.integers(-3, 1000)
+    vals = st.one_of(st.integers(-3, 1000), st.integers(-3, 1000), st.sampled_from(sorted(RAISES)))
     seqs = st.integers(0, 65535)
     clients = st.sampled_from(["none", "obj", "str"]) if kind == "server" else st.just("none")
     idx = st.integers(0, 63)
